@@ -219,7 +219,11 @@ def _judge(res, obs, nontriv, prog, path, leg, resolver_factory, src, all_ids, s
     ratio = sc.count / max(1, prog.n_bindings)
     B.bump(obs["steps_per_binding"], "le0.5" if ratio <= 0.5 else "le1" if ratio <= 1 else "le2" if ratio <= 2
            else "le4" if ratio <= 4 else "gt4")
-    if sc.count > bound or dt > 5.0:
+    if dt > 5.0 and sc.count <= bound:
+        # wall clock is not a verdict (a loaded machine stretched a 2-activation resolution to
+        # 5.9 s once): counted and shown in the evidence, the step bound alone decides
+        obs["wall_clock_over_5s_within_step_bound"] = obs.get("wall_clock_over_5s_within_step_bound", 0) + 1
+    if sc.count > bound:
         B.record(res, {"leg": leg, "effect": "resolution-not-bounded", "expected": exp[0]}, case,
                  f"{sc.count} activations of _resolve_identifier for {prog.n_bindings} bindings "
                  f"(bound {bound}), {dt:.2f}s")
